@@ -56,6 +56,18 @@ def predicate_classes(repo: Repo) -> dict[str, set[str]]:
         out[name] = resolved
     if "is_object_type" not in out or "is_leaf_type" not in out:
         raise AnalysisError(f"type predicates not recognised: {sorted(out)}")
+    # expand base classes to their concrete leaves (GraphQLWrappingType -> List, NonNull)
+    classes = ClassIndex(repo)
+    for name, cs in list(out.items()):
+        expanded: set[str] = set()
+        for c in cs:
+            ci = classes.by_full.get(f"{mod.name}.{c}")
+            subs = [s.name for s in classes.subclasses(ci)] if ci is not None else []
+            leaves = [s for s in subs if not any(
+                x is not classes.by_full.get(f"{mod.name}.{s}") and classes.by_full.get(f"{mod.name}.{s}") in classes.mro(x)
+                for x in classes.by_full.values() if x.mod is mod)]
+            expanded |= set(leaves) if leaves else {c}
+        out[name] = expanded
     return out
 
 
@@ -354,3 +366,63 @@ def kind_attr(check: Check, repo: Repo, rule: str = "KIND-ATTR") -> None:
                      f"{len(reads)} attribute read(s) of `{x}` after the failed check, all guarded" if not bad else
                      f"`{unparse(bad[0])}` (line {bad[0].lineno}) is read although `{x}` failed {unparse(t.ast)} and may be any object")
     check.floor(rule, 8, "kind checks on local names in SchemaValidationContext")
+
+
+def skip_reports(check: Check, repo: Repo, rule: str = "SKIP-REPORTS") -> None:
+    check.rule(
+        rule,
+        "schema validation never skips an element silently: every `continue` in a loop of "
+        "SchemaValidationContext is preceded, in its own block, by a report_error call",
+    )
+    classes = ClassIndex(repo)
+    ctx = classes.get("type.validate", "SchemaValidationContext")
+    n = 0
+    for fn in ctx.methods().values():
+        for c in walk_body(fn):
+            if isinstance(c, ast.Continue):
+                block = parent(c)
+                body = getattr(block, "body", [])
+                if c not in body:
+                    body = getattr(block, "orelse", [])
+                idx = body.index(c) if c in body else 0
+                ok = any(isinstance(x, ast.Call) and last_attr(x) == "report_error" for s in body[:idx] for x in ast.walk(s))
+                check.ob(rule, c, f"continue in {fn.name} (line +{c.lineno - fn.lineno})", ok,
+                         "follows a report_error in the same block" if ok else
+                         "skips the element without reporting anything: a violation on it is never detected")
+                n += 1
+    check.floor(rule, 3, "continue statements in SchemaValidationContext")
+
+
+def wrapper_pairing(check: Check, repo: Repo, funcs: list[tuple[str, str]], rule: str = "WRAPPER-PAIRING") -> None:
+    check.rule(
+        rule,
+        "a structural type comparison that recurses on `.of_type` of both operands does so only where "
+        "must-facts pin both operands to the same single wrapper class (is_non_null_type / is_list_type "
+        "on each); a predicate accepting several wrapper kinds would equate [T] with T!",
+    )
+    preds = predicate_classes(repo)
+    single = {p for p, cs in preds.items() if len(cs) == 1}
+    for mn, q in funcs:
+        fn = repo.func(mn, q)
+        flow = FactFlow(CFG(fn))
+        n = 0
+        for c in walk_body(fn):
+            if isinstance(c, ast.Call) and call_name(c) == fn.name:
+                unwrapped = [a.value for a in c.args if isinstance(a, ast.Attribute) and a.attr == "of_type"]
+                if len(unwrapped) < 2:
+                    continue
+                n += 1
+                facts = flow.facts_at(c)
+                pinned = []
+                for u in unwrapped:
+                    ps = {call_name(f.expr) for f in facts if f.kind == "cond" and f.pol and isinstance(f.expr, ast.Call)
+                          and f.expr.args and unparse(f.expr.args[0]) == unparse(u) and call_name(f.expr) in single}
+                    pinned.append(ps)
+                common = set.intersection(*pinned) if pinned else set()
+                ok = bool(common)
+                check.ob(rule, c, f"{q}: {node_text(c, 70)}", ok,
+                         f"both operands pinned by {sorted(common)}" if ok else
+                         f"operands {[unparse(u) for u in unwrapped]} are not pinned to one wrapper class by a common single-class predicate "
+                         f"(facts: {[sorted(p) for p in pinned]})")
+        if n == 0:
+            raise AnalysisError(f"{q}: no double-unwrapping recursion found")
